@@ -80,23 +80,75 @@ PROGRAMS = [
     P('rx_del_1', r(1, 'x'), ('del', 1)),
     P('new_3', ('new', 3)),
 ]
+C = ('commit',)
+# db_sessions that go on after an explicit commit(): the transaction and every lock end there, the identity map and
+# the values read stay; later updates of the same objects must be protected by the optimistic check again - for
+# objects that were locked FOR UPDATE before, for objects the session created itself, and for plain ones
+MULTI = [
+    P('fu_ry|wx', ('getfu', 1, ''), r(1, 'y'), C, w(1, 'x')),
+    P('fu_ry_wz|wx', ('getfu', 1, ''), r(1, 'y'), w(1, 'z'), C, w(1, 'x')),
+    P('fu_ry_wz|ry_wx', ('getfu', 1, ''), r(1, 'y'), w(1, 'z'), C, r(1, 'y'), w(1, 'x')),
+    P('fu_rx_wy|rmw_x', ('getfu', 1, ''), r(1, 'x'), w(1, 'y'), C, w(1, 'x', 'x')),
+    P('fu_rs|wx', ('getfu', 1, ''), r(1, 's'), C, w(1, 'x')),
+    P('selfu_ry|wx', ('selfu', 1, ''), r(1, 'y'), C, w(1, 'x')),
+    P('fu_ry|refetch_wx', ('getfu', 1, ''), r(1, 'y'), C, ('refetch', 1), w(1, 'x')),
+    P('fu_ry|fu_wx', ('getfu', 1, ''), r(1, 'y'), C, ('getfu', 1, ''), w(1, 'x')),
+    P('fu_ry|wx|wz', ('getfu', 1, ''), r(1, 'y'), C, w(1, 'x'), C, w(1, 'z')),
+    P('new3|ry_wx', ('new', 3), C, r(3, 'y'), w(3, 'x')),
+    P('new3_flush_ry_wz|wx', ('new', 3), ('flush',), r(3, 'y'), w(3, 'z'), C, w(3, 'x')),
+    P('new3_rx|rmw_x', ('new', 3), r(3, 'x'), C, w(3, 'x', 'x')),
+    P('new3|rs_wx|wz', ('new', 3), C, r(3, 's'), w(3, 'x'), C, w(3, 'z')),
+    P('ry|wx', r(1, 'y'), C, w(1, 'x')),
+    P('ry_wz|wx', r(1, 'y'), w(1, 'z'), C, w(1, 'x')),
+    P('rmw_x|rmw_x', r(1, 'x'), w(1, 'x', 'x'), C, r(1, 'x'), w(1, 'x', 'x')),
+    P('rx_wy|rmw_x', r(1, 'x'), w(1, 'y'), C, w(1, 'x', 'x')),
+    # control groups: excluded attributes read before the in-session commit must not make the later update fail
+    P('fu_rf|wx', ('getfu', 1, ''), r(1, 'f'), C, w(1, 'x')),
+    P('fu_rn_wz|wx', ('getfu', 1, ''), r(1, 'n'), w(1, 'z'), C, w(1, 'x')),
+    P('new3|rv_wx', ('new', 3), C, r(3, 'v'), w(3, 'x')),
+]
+# sessions that change the row the multi-transaction sessions create (they end with ObjectNotFound before it exists)
+ROW3 = [
+    P('rmw_3y', r(3, 'y'), w(3, 'y', 'y')),
+    P('blind_3y', w(3, 'y')),
+    P('rmw_3x', r(3, 'x'), w(3, 'x', 'x')),
+    P('blind_3s', w(3, 's')),
+    P('blind_3v', w(3, 'v')),
+    P('del_3', ('del', 3)),
+]
+BASE = list(PROGRAMS)
+PROGRAMS = BASE + MULTI + ROW3
+# quick tier: partners of the multi-transaction sessions (thorough: every program)
+PARTNERS_1 = ['rmw_x', 'rmw_y', 'blind_y', 'blind_x', 'rmw_s', 'blind_f', 'blind_n', 'fu_rmw_x', 'del_1']
+PARTNERS_3 = ['rmw_3y', 'blind_3y', 'rmw_3x', 'blind_3s', 'blind_3v', 'del_3', 'new_3']
 BY_NAME = {p['name']: p for p in PROGRAMS}
+assert len(BY_NAME) == len(PROGRAMS)
 TRIPLE_CORE = ['rmw_x', 'ry_wx', 'blind_y', 'rmw_f', 'fu_rmw_x', 'del_1']
 QUICK_CORE = ['rmw_x', 'rmw_s', 'ry_wx', 'rx_wy', 'x_from_y', 'blind_x', 'blind_y', 'rmw_f', 'rf_wx', 'blind_f', 'rn_wx', 'blind_n',
               'rv_wx', 'blind_v', 'rf_rz_wx', 'blind_z', 'qx_wy', 'fu_rmw_x', 'ry_then_fu_wx', 'nonopt_rmw_x', 'ry_refetch_wx', 'del_1']
 QUICK_TRIPLE_CORE = ['rmw_x', 'ry_wx', 'blind_y', 'fu_rmw_x']
 XCHECK = [('rmw_x', 'ry_wx'), ('rmw_x', 'fu_rmw_x'), ('blind_y', 'ry_refetch_wx')]
 
+def creates_3(name):
+    return any(op[0] == 'new' for op in BY_NAME[name]['ops'])
+
 def work_items(ctx):
-    names = [p['name'] for p in PROGRAMS]
+    names = [p['name'] for p in BASE]
     pairs = list(itertools.combinations_with_replacement(names, 2))
+    multi = [p['name'] for p in MULTI]
+    row3 = [p['name'] for p in ROW3]
     items = []
     if ctx.quick:
         items += [('pair', pr, 2 if (pr[0] in QUICK_CORE and pr[1] in QUICK_CORE) else 1, 'visible') for pr in pairs]
+        # the other session fits between two transactions of the multi-transaction session with ONE preemption
+        items += [('multi', (m, o), 2 if i < 4 else 1, 'visible') for m in multi
+                  for i, o in enumerate(PARTNERS_3 if creates_3(m) else PARTNERS_1)]
         items += [('triple', tr, 1, 'visible') for tr in itertools.combinations_with_replacement(QUICK_TRIPLE_CORE, 3)]
         items += [('xcheck', pr, 1, 'all') for pr in XCHECK[:2]]
     else:
         items += [('pair', pr, None, 'visible') for pr in pairs]
+        items += [('multi', (m, o), None, 'visible') for m in multi for o in (row3 + ['new_3'] if creates_3(m) else names)]
+        items += [('multi', pr, 3, 'visible') for pr in itertools.combinations_with_replacement(multi, 2)]
         items += [('triple', tr, 3, 'visible') for tr in itertools.combinations_with_replacement(TRIPLE_CORE, 3)]
         items += [('xcheck', pr, 2, 'all') for pr in XCHECK]
     return items
@@ -155,7 +207,9 @@ def pg_part(ctx):
             for pos, d in notes:
                 if pos > i: break
                 if d[0] == 'w' and d[1] == o: written.add(d[2])
-                if d[0] == 'lock' and d[1] == o: has_lock = True
+                if d[0] in ('lock', 'new') and d[1] == o: has_lock = True      # a row the transaction inserted is its own
+                if d[0] == 'committed':            # the lock ends with the transaction; what was written is known like a read
+                    has_lock = locked; written = set()
                 if d[0] == 'r' and d[1] == o and d[2] not in written and d[2] not in L.CONTROL_OCE: required.add(d[2])
             checked += 1
             case = dict(program=prog, sql=sql, where=cols, required=sorted(required))
@@ -166,6 +220,7 @@ def pg_part(ctx):
                 ctx.violation('pg-emission|excluded-attribute-in-optimistic-where|%s' % ','.join(sorted(set(cols) & set(L.CONTROL_OCE))),
                               case, '%s: UPDATE WHERE %r uses an attribute excluded from optimistic checks' % (prog['name'], cols))
             if required and not has_lock: ctx.count('pg_updates_with_nonempty_read_set')
+            if required and not has_lock and any(d[0] == 'committed' for pos, d in notes if pos <= i): ctx.count('pg_updates_after_in_session_commit_with_read_set')
             if autocommit is not False:
                 ctx.violation('pg-emission|update-in-autocommit-mode', case, '%s: UPDATE sent with autocommit=%r' % (prog['name'], autocommit))
     ctx.count('pg_updates_checked', checked)
@@ -198,12 +253,16 @@ def run(ctx):
         ('executions with a session disabled on the provider lock', c.get('executions_with_a_session_waiting_on_the_lock', 0), 500),
         ('program pairs with more than one distinct outcome', agg['per_kind']['pair']['tuples_with_more_than_one_outcome'], 100),
         ('PostgreSQL UPDATE statements with a non-empty read set', c.get('pg_updates_with_nonempty_read_set', 0), 8),
+        ('PostgreSQL UPDATE statements after an in-session commit with a non-empty read set', c.get('pg_updates_after_in_session_commit_with_read_set', 0), 8),
+        ('multi-transaction pairs with more than one distinct outcome', agg['per_kind']['multi']['tuples_with_more_than_one_outcome'], 60),
         ('all-points cross-check tuples', c.get('xcheck_tuples_all_points_outcomes_contained', 0), 2)])
     out = L.coverage(ctx, agg)
-    ctx.cov.update(programs=len(PROGRAMS),
-                   bounds=('pairs: preemption bound 2 inside the %d-program core, bound 1 otherwise; triples of %d programs: bound 1'
-                           % (len(QUICK_CORE), len(QUICK_TRIPLE_CORE))) if ctx.quick else
-                          ('pairs: all interleavings; triples of %d programs: preemption bound 3' % len(TRIPLE_CORE)))
+    ctx.cov.update(programs=len(PROGRAMS), multi_transaction_programs=len(MULTI),
+                   bounds=('pairs: preemption bound 2 inside the %d-program core, bound 1 otherwise; triples of %d programs: bound 1; '
+                           'multi-transaction session x %d/%d partners: bound 2 for the first four partners, bound 1 otherwise'
+                           % (len(QUICK_CORE), len(QUICK_TRIPLE_CORE), len(PARTNERS_1), len(PARTNERS_3))) if ctx.quick else
+                          ('pairs: all interleavings; triples of %d programs: preemption bound 3; multi-transaction session x every '
+                           'single-transaction program: all interleavings; multi x multi: preemption bound 3' % len(TRIPLE_CORE)))
     ctx.cov['exhaustive'] = True      # the stated bounded space is covered completely (caps would reset this)
     ctx.assume('SQLite only for behaviour; PostgreSQL: UPDATE text on a statement-log connection (DM transaction model), server behaviour out of reach')
     return out
